@@ -3,6 +3,7 @@
 package main
 
 import (
+	"time"
 	"fmt"
 	"strings"
 	"testing"
@@ -219,4 +220,72 @@ func TestC11FreeRunning(t *testing.T) {
 		vlib.Class("free-running:" + mode)
 	}
 	vlib.Sample(map[string]any{"kind": "free-running", "clients": clients, "requests_per_client": "authenticate x2 per round, update / set-admin / list every 5th round"})
+}
+
+// TestC11LoginThenChange: the "log in, then change the password at once" sequence with an expensive default parameter set,
+// for many users in parallel (real concurrency).  A login-triggered upgrade that is not serialised with the dispatcher
+// (or not re-checked) puts the old password back after the acknowledged change; with a slow hash that window is wide.
+func TestC11LoginThenChange(t *testing.T) {
+	cfg := &vlib.Config{Default: 3, Sets: []*vlib.ParamSet{
+		{ID: 2, Alg: vlib.AlgArgon, Time: 1, Memory: 8, Threads: 1, Length: 16},
+		{ID: 3, Alg: vlib.AlgArgon, Time: 2, Memory: 4096, Threads: 1, Length: 32}, // a few milliseconds per hash
+	}}
+	n := vlib.Scale(16) * 2
+	var users []seedUser
+	for i := 0; i < n; i++ {
+		users = append(users, seedUser{Name: fmt.Sprintf("w%d", i), PW: fmt.Sprintf("old-%d", i), Admin: i == 0, PID: 2})
+	}
+	e, err := newAgentEnv(cfg, users, "local", "", "", "")
+	if err != nil {
+		t.Fatalf("VERIF-INFRA %v", err)
+	}
+	defer e.cleanup()
+	st := e.s.GetInterface()
+	errs := make(chan string, n)
+	for i := 0; i < n; i++ {
+		go func(i int) {
+			name, old, nw := users[i].Name, users[i].PW, fmt.Sprintf("new-%d", i)
+			if ok, _, _, _ := st.Authenticate(name, old); !ok {
+				errs <- fmt.Sprintf("%s: login with the current password failed", name)
+				return
+			}
+			if i%4 == 3 {
+				time.Sleep(time.Duration(i%7) * time.Millisecond)
+			}
+			if err := st.Update(name, nw); err != nil {
+				errs <- fmt.Sprintf("%s: update failed: %v", name, err)
+				return
+			}
+			// the change is acknowledged: from now on, and once the agent is idle, only the new password may work
+			for k := 0; k < 6; k++ {
+				if ok, _, _, _ := st.Authenticate(name, old); ok {
+					errs <- fmt.Sprintf("%s: the old password is accepted %d ms after the acknowledged change (hash upgrade undid it)", name, k*20)
+					return
+				}
+				if ok, _, _, _ := st.Authenticate(name, nw); !ok {
+					errs <- fmt.Sprintf("%s: the new password is rejected after the acknowledged change", name)
+					return
+				}
+				time.Sleep(20 * time.Millisecond)
+			}
+			errs <- ""
+		}(i)
+	}
+	bad := ""
+	for i := 0; i < n; i++ {
+		if m := <-errs; m != "" && bad == "" {
+			bad = m
+		}
+	}
+	vlib.EvalN(n)
+	if bad != "" {
+		vlib.Violation(bad, "TestC11LoginThenChange", map[string]any{"users": n})
+		t.Fatalf("VIOLATION C11: %s", bad)
+	}
+	if err := st.Check(); err != nil {
+		t.Fatalf("VIOLATION C11: idle store fails the consistency check: %v", err)
+	}
+	vlib.NT("c11ltc", n)
+	vlib.NT("c11ltc", "slow-default-set")
+	vlib.Class("login-then-change:slow-hash")
 }
